@@ -108,8 +108,11 @@ def run_one(sc):
     def make_packet(i, a):
         return Packet(env.now, a["sz"], i + 1, flow_id=a["f"] - 1)
 
+    first_seen = {}
+
     def on_arrival(i, a, pkt):
         seen_flows.add(a["f"] - 1)
+        first_seen.setdefault(a["f"] - 1, env.now)
         # sch = 1: the arrival was scheduled before its instant began (a timer set earlier, or the same process step as
         # such an arrival); sch = 0: a reactive arrival, created by zero-delay hops inside the instant
         rec.ev.append(dict(base, e="A", t=ex(env.now - t0), id=i + 1, f=a["f"], sz=a["sz"], sch=0 if "after" in a else 1,
@@ -122,15 +125,26 @@ def run_one(sc):
         holder = [None]
         seen = {}
 
+        calls = [0]
+
         def dist():
             m = holder[0]
+            calls[0] += 1
             if m is not None:
+                fresh = set()
                 for f in sorted(m.sizes.keys()):
                     if len(m.sizes[f]) > seen.get(f, 0):
                         seen[f] = len(m.sizes[f])
+                        fresh.add(f)
                         if 0 <= f < nf:
                             rec.ev.append(dict(base, e="S", t=ex(env.now - t0), f=f + 1, x=ex(m.sizes[f][-1]),
                                                y=ex(m.byte_sizes[f][-1]), **state()))
+                if calls[0] > 1:
+                    # a sampling round has just taken place: every flow the scheduler has seen before this instant has a
+                    # number to be sampled (0 when it is empty) -- a flow without a sample is recorded as sample -1
+                    for f in sorted(first_seen):
+                        if first_seen[f] < env.now and f not in fresh and 0 <= f < nf:
+                            rec.ev.append(dict(base, e="S", t=ex(env.now - t0), f=f + 1, x=-1, y=-1, **state()))
             return gaps.pop(0) if gaps else float("inf")
 
         # Monitor starts its own process in __init__ and calls dist() on first resumption
